@@ -33,21 +33,3 @@ func lemmaC12LessStrictTotalOrder(us Updates, a, b, c int) {
 		vAssert(ab)
 	}
 }
-
-// "versions of one child that share a timestamp are applied oldest to newest"
-//
-//@ func oracleC12SortedByIndexTimeVersion
-//@   props C12
-//@   oracle
-//@   covers updatesSortIndex
-//@   covers lemmaC12
-//@   covers SortByIndex
-func oracleC12SortedByIndexTimeVersion(us Updates) {
-	us.SortByIndex()
-	for k := 0; k+1 < len(us); k++ {
-		a, b := us[k], us[k+1]
-		ok := a.Index < b.Index || (a.Index == b.Index && (a.Timestamp.Before(b.Timestamp) ||
-			(a.Timestamp.Equal(b.Timestamp) && a.Version <= b.Version)))
-		vAssert(ok)
-	}
-}
